@@ -75,3 +75,20 @@ package extension
 //@   ensures cx > lim ==> res0 != nil
 //@   ensures cx <= lim ==> res0 == nil
 //@   ensures calls(Calculate) == 1 && calls(SetExtension) == 1
+
+// C14 "with a limit configured": the fixed limit extension compares against exactly the configured number, for
+// every operation; Validate installs the schema the costs are computed against.
+//@ trusted errors.New(text) (err)
+//@   ensures err != nil
+//@   nopanic
+//@   pure
+//@ func FixedComplexityLimit [C14]
+//@   ensures res0 != nil && res0.Func != nil
+//@ func FixedComplexityLimit$1 [C14]
+//@   ensures res0 == limit
+//@   nopanic
+//@   modifies nothing
+//@ func (*ComplexityLimit).Validate [C14]
+//@   requires c != nil
+//@   ensures old(c.Func) != nil ==> res0 == nil && c.es == schema
+//@   ensures old(c.Func) == nil ==> res0 != nil
